@@ -18,8 +18,8 @@ RULE = (
     '= SHA-1 of (grid, temperature).'
 )
 ASSUMPTIONS = ['k_B = 1.380649e-23 / 1.602176634e-19 eV/K (exact SI); relative tolerance 1e-9']
-N_CASES = {'quick': 640, 'thorough': 20000}
-BUDGET_S = {'quick': 200, 'thorough': 2400}
+N_CASES = {'quick': 640, 'thorough': 100000}
+BUDGET_S = {'quick': 200, 'thorough': 3600}
 KB_EV = 1.380649e-23 / 1.602176634e-19
 
 _mon = Monitor()
